@@ -20,7 +20,7 @@ pub struct HeapW { pub slots: Map<nat, SlotW>, pub lists: Seq<Seq<nat>> }
 #[verifier::opaque]
 pub open spec fn slot_ok(b: Seq<u8>, o: nat, s: SlotW) -> bool {
     &&& is_slot_size(s.size) && s.size <= u32::MAX
-    &&& o >= 192 && o + s.size <= b.len()
+    &&& o >= 192 && o + s.size <= b.len() && o % 8 == 0
     &&& match s.c {
         SlotC::Val(v) => val_used_at(b, o as int, s.size, v),
         SlotC::Key(k, vo, nx) => key_used_at(b, o as int, s.size, k, vo, nx),
@@ -67,7 +67,7 @@ pub open spec fn free_members(w: HeapW) -> bool {
 
 pub open spec fn heap_ok(b: Seq<u8>, pm: PieceMgr, w: HeapW) -> bool {
     &&& mgr_ok(pm)
-    &&& b.len() <= 0x3fff_ffff_ffff_ffff
+    &&& b.len() <= 0x3fff_ffff_ffff_ffff && b.len() % 8 == 0
     &&& tiling(b.len(), w.slots)
     &&& slots_ok(b, w.slots)
     &&& lists_ok(b, pm, w)
@@ -100,12 +100,12 @@ pub proof fn lemma_slot_frame(b0: Seq<u8>, b1: Seq<u8>, o: nat, s: SlotW)
 }
 pub proof fn lemma_slot_bounds(b: Seq<u8>, o: nat, s: SlotW)
     requires slot_ok(b, o, s)
-    ensures is_slot_size(s.size), s.size <= u32::MAX, s.size >= 16, s.size % 8 == 0, o >= 192, o + s.size <= b.len(), 0 <= class_idx(s.size) < 16
+    ensures is_slot_size(s.size), s.size <= u32::MAX, s.size >= 16, s.size % 8 == 0, o >= 192, o + s.size <= b.len(), 0 <= class_idx(s.size) < 16, o % 8 == 0
 {
     reveal(slot_ok);
 }
 pub proof fn lemma_slot_intro(b: Seq<u8>, o: nat, s: SlotW)
-    requires is_slot_size(s.size), s.size <= u32::MAX, o >= 192, o + s.size <= b.len(),
+    requires is_slot_size(s.size), s.size <= u32::MAX, o >= 192, o + s.size <= b.len(), o % 8 == 0,
         match s.c {
             SlotC::Val(v) => val_used_at(b, o as int, s.size, v),
             SlotC::Key(k, vo, nx) => key_used_at(b, o as int, s.size, k, vo, nx),
@@ -427,7 +427,7 @@ pub proof fn lemma_member_decodes(b: Seq<u8>, pm: PieceMgr, w: HeapW, c: int, i:
         &&& rec_size(b, o as int) == w.slots[o].size
         &&& free_next(b, o as int) == nxt(w.lists[c], i)
         &&& class_idx(w.slots[o].size) == c
-        &&& o >= 192 && o + w.slots[o].size <= b.len() && w.slots[o].size >= 16 && w.slots[o].size % 8 == 0 && w.slots[o].size <= u32::MAX
+        &&& o >= 192 && o + w.slots[o].size <= b.len() && w.slots[o].size >= 16 && w.slots[o].size % 8 == 0 && w.slots[o].size <= u32::MAX && o % 8 == 0
         &&& is_slot_size(w.slots[o].size)
         &&& free_at(b, o as int, w.slots[o].size, nxt(w.lists[c], i))
     })
